@@ -199,7 +199,7 @@ impl Property for C11 {
         ]
     }
     fn cases(&self, tier: Tier) -> usize {
-        tier.pick(1500, 5000)
+        tier.pick(5000, 60_000)
     }
     fn strategy(&self, tier: Tier) -> BoxedStrategy<Case> {
         let _ = tier;
